@@ -316,6 +316,9 @@ class Check:
         self.assumptions = []
         self._distinct = set()
         self.notes = []
+        # replay files of earlier runs of this check would be misleading
+        rp = os.path.join(os.environ.get("VERIF_REPLAY_DIR", os.path.join(VERIF, "replays")), pid)
+        shutil.rmtree(rp, ignore_errors=True)
 
     # --- coverage accounting -------------------------------------------------------------
     def add_tlc(self, label, r, cfg_constants=None):
